@@ -193,6 +193,9 @@ def h_end_to_end(S, B):
     src = Source()
     daemon.objectsById["obj"] = src
     p, sock = rig.make_proxy(daemon, "obj", {"numbers", "gen", "plain"})
+    sock.server_on_own_thread = True          # the daemon has its own thread-locals, like a real server
+    # a client that traces its calls sends the same correlation id with every request
+    current_context.correlation_id = rig.FakeUUID(int=0xC0FFEE) if S.flag("client_sends_one_correlation_id_with_every_call") else None
     totalX = S.choice("X.total", [0, 1, 2])
     totalY = S.choice("Y.total", [0, 2])
     x_raises = S.choice("X.raises_at", [None, 0, 1])
